@@ -178,7 +178,26 @@ def check_close_on_every_exit(check, an: Analysis, rule: str, receivers):
                                and e.data.get('exit', e.data.get('outcome')) == 'normal']
                     graceful = bool(awaited) and awaited[0] < closed[0]
                 verdicts.setdefault((out, ok and graceful), path)
+            # an assertion that what is known on the path does not decide, placed in front
+            # of (or inside) the closing sequence, is a way out that skips it: the children
+            # of a scope whose exit trips over its own check live on
+            n_asserts, early = 0, None
+            for path in paths:
+                steps = _close_steps(path)
+                last = steps[-1][0] if len(steps) == len(CLOSE_ORDER) else len(path.events)
+                for index, event in enumerate(path.events[:last]):
+                    if event.kind == 'assert':
+                        n_asserts += 1
+                        if event.data.get('could_fail'):
+                            early = early or (path, index)
             short_which = which.replace('exc:', '').rsplit('.', 1)[-1].replace('ext:', '')
+            check.instance(rule, 'Scope.__aexit__[%s]{%s}:no-open-assertion-before-closing'
+                           % (label, short_which), early is None, where_fn(aexit.fn),
+                           'no assertion that could fail stands between the entry of '
+                           '__aexit__ and the end of the closing sequence (%d assertions on '
+                           'paths)' % n_asserts,
+                           path=rules.path_lines(*early) if early else None,
+                           nontrivial=n_asserts > 0, analysed=len(paths))
             for (out, ok), path in sorted(verdicts.items(), key=lambda kv: repr(kv[0])):
                 check.instance(rule, 'Scope.__aexit__[%s]{%s}:%s' % (label, short_which, out),
                                ok, where_fn(aexit.fn),
@@ -391,6 +410,7 @@ def run(check, an: Analysis):
                        'parent.__child_finished__ called exactly once and the payload '
                        'closed', path=rules.path_lines(path))
     check_task_close(check, an, 'F')
+    check_payload_opaque(check, an, 'F')
     # nothing escapes the task wrapper: whatever ends the payload or the start delay, the
     # task reports to its scope and becomes done
     escaping = [path for path in an.paths(wrapper) if not path.normal]
@@ -415,6 +435,38 @@ def run(check, an: Analysis):
     from . import _scope as _kernel
     _kernel.check_kernel_core(check, an)
     check.stats.update(an.stats())
+
+
+def check_payload_opaque(check, an: Analysis, rule: str):
+    """
+    What a task wraps is *any* awaitable the user hands to `scope.do` -- a coroutine, a
+    condition, a notification, another task: the package awaits it and closes it "if it can
+    be closed", and reads no other attribute of it.  (An attribute only coroutines have,
+    read where tasks are reported or closed, raises for every other payload -- in the
+    middle of a closing loop that leaves the remaining children running.)
+    """
+    allowed = {'close'}   # read under `except AttributeError` by the close-if-possible helper
+    n_reads, bad = 0, None
+    for fn in an.p.functions.values():
+        if not fn.module.name.startswith('usim.') or fn.module.name.startswith('usim.py'):
+            continue
+        params = {a.arg for a in fn.node.args.args + fn.node.args.kwonlyargs}
+        for node in ast.walk(fn.node):
+            if not isinstance(node, ast.Attribute):
+                continue
+            base = node.value
+            is_payload = (isinstance(base, ast.Attribute) and base.attr == 'payload') or (
+                isinstance(base, ast.Name) and base.id == 'payload' and 'payload' in params)
+            if not is_payload:
+                continue
+            n_reads += 1
+            if node.attr not in allowed:
+                bad = bad or ('%s:%d' % (fn.module.relpath, node.lineno), node.attr)
+    check.instance(rule, 'payload:opaque', bad is None, bad[0] if bad else 'usim/',
+                   'no attribute of a task\'s payload is read (it may be any awaitable)%s '
+                   '(%d attribute reads on payloads in the package)' % (
+                       ': `.%s` is' % bad[1] if bad else '', n_reads),
+                   nontrivial=False)
 
 
 def check_task_close(check, an: Analysis, rule: str):
